@@ -140,6 +140,7 @@ struct MInputIt {
   bool operator!=(const MInputIt &o) const { return !(*this == o); }
 };
 template <class T> T *base_of(T *p) { return p; }
+template <class T> T *base_of(const T *p) { return const_cast<T *>(p); }
 template <class T> T *base_of(MInputIt<T> it) { return it.s ? it.s->data + it.s->cursor : nullptr; }
 template <class T, class C> T *base_of(WrapIt<T, C> it) { return it.p; }
 template <class T> T *base_of(std::move_iterator<T *> it) { return it.base(); }
@@ -152,8 +153,8 @@ static const char *kAlgoNames[] = {"construct_at", "construct_at_copy", "constru
                                    "uninitialized_copy_n", "uninitialized_move", "uninitialized_move_n", "uninitialized_default_construct",
                                    "uninitialized_default_construct_n", "uninitialized_value_construct", "uninitialized_value_construct_n",
                                    "uninitialized_relocate", "uninitialized_relocate_n", "relocate_at", "construct_at_array", "destroy_at_array"};
-enum IterKind { I_PTR = 0, I_RA, I_BIDI, I_FWD, I_MOVE, I_INPUT, I_NITER };
-static const char *kIterNames[] = {"pointer", "random_access", "bidirectional", "forward", "move_iterator", "single_pass_input"};
+enum IterKind { I_PTR = 0, I_RA, I_BIDI, I_FWD, I_MOVE, I_INPUT, I_CPTR, I_NITER };
+static const char *kIterNames[] = {"pointer", "random_access", "bidirectional", "forward", "move_iterator", "single_pass_input", "const_pointer"};
 enum ValKind { VAL_TRIV = 0, VAL_TR, VAL_NONTR, VAL_THROWMOVE, VAL_AGG, VAL_NVAL };
 static const char *kValNames[] = {"trivial", "ETr", "ENonTr", "EThrowMove", "aggregate"};
 
@@ -265,6 +266,8 @@ struct Runner {
         if (reloc) {
           if (amc::is_trivially_relocatable<T>::value) { /* bytes copied, source is dead storage: its identity now lives in dst */ }
           else if (T::kHooks && st != ES_DEAD && st != ES_GARBAGE) fail("relocate: source object was not destroyed");
+        } else if (moves && c.iter == I_CPTR) {
+          if (st != ES_ALIVE) fail("move from a const source: the source object changed state");
         } else if (moves) {
           if (T::kHooks && st != ES_MOVED && !IsTrivVal<T>::value) fail("move: source object is not in a moved-from state");
         } else if (st != ES_ALIVE) {
@@ -382,6 +385,7 @@ struct Runner {
           case I_RA: run_range_algo(c, WrapIt<T, std::random_access_iterator_tag>(src)); break;
           case I_BIDI: run_range_algo(c, WrapIt<T, std::bidirectional_iterator_tag>(src)); break;
           case I_FWD: run_range_algo(c, WrapIt<T, std::forward_iterator_tag>(src)); break;
+          case I_CPTR: run_range_algo(c, static_cast<const T *>(src)); break;  // const source: "move" and "relocate" copy
           case I_INPUT: {
             MStream<T> st(src, (size_t)(n + extra));
             run_range_algo(c, MInputIt<T>(&st));
